@@ -356,6 +356,15 @@ def reader_ifunc(stype):
 def read_struct(stype, stream, context=None):
     if isinstance(stream, (bytes, bytearray, SymBytes)):
         stream = ModelBytesIO(stream)
+    if type(stream) in (ModelBytesIO, V.ModelOSFile) and isinstance(stream.pos, int) and not getattr(stype, "dynamic", True):
+        # fast path: a statically sized structure over bytes that are all concrete is parsed by the real cstruct reader
+        # (the generated reader does exactly one read(size) for such a structure); anything else is interpreted below
+        size = stype.size
+        if isinstance(size, int) and size > 0:
+            chunk = stream.data.cells[stream.pos : stream.pos + size]
+            if len(chunk) == size and all(type(c) is int for c in chunk):
+                stream.pos += size
+                return stype(bytes(chunk))
     fn = reader_ifunc(stype)
     if fn is None:
         raise Unsupported("cstruct structure %s has no compiled reader" % stype.__name__)
